@@ -116,6 +116,7 @@ func (log EventLog) Replay(pcrID PCRID, hashAlgo Algorithm, locality uint8) Dige
 		hasher.Write(result)
 		hasher.Write(ev.Digest)
 		result = hasher.Sum(result[:0])
+		hasher.Reset()
 	}
 
 	return result
